@@ -561,14 +561,13 @@ class BaseCurve(Intface_BaseCurve):
         if oldctrlpoints is not None:
             oldctrlpoints = list(oldctrlpoints)
             for i, weight in enumerate(oldweights):
-                oldctrlpoints[i] *= weight
+                oldctrlpoints[i] = weight * oldctrlpoints[i]
             newctrlpoints = []
             for i, line in enumerate(matrix):
                 newctrlpoints.append(0 * oldctrlpoints[0])
                 for j, point in enumerate(oldctrlpoints):
-                    newpoint = line[j] * point
-                    newpoint /= self.weights[i]
-                    newctrlpoints[i] += newpoint
+                    newpoint = (line[j] / self.weights[i]) * point
+                    newctrlpoints[i] = newctrlpoints[i] + newpoint
             self.ctrlpoints = newctrlpoints
 
 
@@ -974,7 +973,7 @@ class Curve(BaseCurve):
                 newweights = np.dot(matrix, self.weights)
                 ctrlpoints = [wi * pt for wi, pt in zip(self.weights, self.ctrlpoints)]
                 ctrlpoints = np.dot(matrix, ctrlpoints)
-                newcurve.ctrlpoints = [pt / wi for pt, wi in zip(ctrlpoints, newweights)]
+                newcurve.ctrlpoints = [(1 / wi) * pt for pt, wi in zip(ctrlpoints, newweights)]
                 newcurve.weights = newweights
             newcurves.append(newcurve)
         return tuple(newcurves)
